@@ -22,6 +22,10 @@ class Cu(Material):
 
     propertyValidTemperature = {"linear expansion percent": ((40.43, 788.83), "K")}
 
+    def __init__(self):
+        Material.__init__(self)
+        self.refDens = 8.913  # g/cm3, pseudoDensity() and component number densities scale from it
+
     def setDefaultMassFracs(self):
         self.setMassFrac("CU63", 0.6915)
         self.setMassFrac("CU65", 0.3085)
